@@ -117,10 +117,10 @@ LineOK(line) ==
    /\ \A f \in Fidelity(line) :
          CSVWrite("%1$s", <<ToJson([case |-> line.case, ids |-> IF "ids" \in DOMAIN line THEN line.ids ELSE <<>>,
                                     what |-> f.what, path |-> f.path, model |-> f.model, code |-> f.code])>>, "fidelity.ndjson")
-   /\ (Step(line, "un") = "ok" /\ line.rd # line.d)
-         => CSVWrite("%1$s", <<ToJson([case |-> line.case, ids |-> IF "ids" \in DOMAIN line THEN line.ids ELSE <<>>,
-                                      what |-> "the library re-marshals the document differently",
-                                      path |-> <<>>, model |-> Absent, code |-> Absent])>>, "fidelity.ndjson")
+   /\ (Step(line, "un") = "ok") =>
+         \A f \in Fid("the library re-marshals the document differently", Diff(Written2(line.d), line.rd, <<>>)) :
+            CSVWrite("%1$s", <<ToJson([case |-> line.case, ids |-> IF "ids" \in DOMAIN line THEN line.ids ELSE <<>>,
+                                       what |-> f.what, path |-> f.path, model |-> f.model, code |-> f.code])>>, "fidelity.ndjson")
 
 Judge == l > 0 => LineOK(Trace[l])
 
